@@ -20,13 +20,14 @@ EXTENDS Common, Integers
 CONSTANTS Subjects
 
 SigKinds     == {"sig", "legacySig", "sigAtCap"}
-HostileKinds == {"hostile0", "hostile2", "hostileBigBlob", "hostileBigManifest"}
+HostileKinds == {"hostile0", "hostile2", "hostileBigBlob", "hostileBigManifest", "hostileBigLegacy"}
+Oversized    == {"hostileBigManifest", "hostileBigLegacy"}        \* manifests beyond the cap, in the image-manifest and in the legacy form
 ForeignKinds == {"foreignType", "legacyForeign", "subjDigest", "subjSize", "subjMT", "noSubject"}
 Kinds        == SigKinds \cup HostileKinds \cup ForeignKinds
 
 (* a signature-typed referrer of exactly s is listed for s; nothing else ever is *)
-ListedFor(h, s) == {i \in 1..Len(h) : h[i].s = s /\ h[i].kind \in SigKinds \cup (HostileKinds \ {"hostileBigManifest"})}
-Poisoned(h, s) == \E i \in 1..Len(h) : h[i].s = s /\ h[i].kind = "hostileBigManifest"    \* an oversized referrer: the listing is refused
+ListedFor(h, s) == {i \in 1..Len(h) : h[i].s = s /\ h[i].kind \in SigKinds \cup (HostileKinds \ Oversized)}
+Poisoned(h, s) == \E i \in 1..Len(h) : h[i].s = s /\ h[i].kind \in Oversized    \* an oversized referrer: the listing is refused
 RECURSIVE SortedSeq(_)
 SortedSeq(S) == IF S = {} THEN <<>> ELSE LET m == CHOOSE x \in S : \A y \in S : x <= y IN <<m>> \o SortedSeq(S \ {m})
 ListOf(h, s) == IF Poisoned(h, s) THEN <<-1>> ELSE SortedSeq(ListedFor(h, s))
